@@ -1,0 +1,33 @@
+// +build verif
+
+package ed25519
+
+import "sync/atomic"
+
+// Verification hooks (build tag verif): they let an external harness
+// observe whether a chunk of VerifyBatch was decided by the batch
+// equation or by the per-signature fallback.  Not part of the API.
+
+var (
+	verifFallbackCount    uint64
+	verifFallbackObserver atomic.Value // of func(offset, batchSize int)
+)
+
+// VerifFallbackCount returns the number of chunks that took the
+// fallback path since process start.
+func VerifFallbackCount() uint64 {
+	return atomic.LoadUint64(&verifFallbackCount)
+}
+
+// VerifSetFallbackObserver installs a callback invoked on every
+// fallback with the chunk offset and size.
+func VerifSetFallbackObserver(fn func(offset, batchSize int)) {
+	verifFallbackObserver.Store(fn)
+}
+
+func verifNoteFallback(offset, batchSize int) {
+	atomic.AddUint64(&verifFallbackCount, 1)
+	if fn, ok := verifFallbackObserver.Load().(func(offset, batchSize int)); ok && fn != nil {
+		fn(offset, batchSize)
+	}
+}
